@@ -63,7 +63,7 @@ func init() {
 	})
 	register(&Prop{
 		ID:    "C02",
-		Rules: []func(*core.Ctx){RFunnel, RQuick, RQuickOmit, RQuickSame, RLiveOps, RRtlFilter, RFFFDFilter, ROrigin, RMask, RStepDecode},
+		Rules: []func(*core.Ctx){RFunnel, RQuick, RQuickOmit, RQuickSame, RLiveOps, RWholeText, RRtlFilter, RFFFDFilter, ROrigin, RMask, RStepDecode},
 		Explanation: "All entry points reach the one scan funnel (R-FUNNEL, call graph); the capture-free quick program is active only where the returned match is merely nil-tested or read for position (R-QUICK, SSA def-use), and the liveness scan that builds it masks opcode flags (R-MASK); the left-to-right raw-string filter is never consulted for right-to-left programs (R-RTLFILTER, dominance); a filter candidate never becomes the \\G origin (R-ORIGIN, interprocedural taint). " +
 			"These are structural preconditions for the entry points to agree; that scan returns the same result for the same arguments, the index conversions and the Replace/Split folds are decided elsewhere or not at all.",
 	})
@@ -129,7 +129,7 @@ func init() {
 	})
 	register(&Prop{
 		ID:    "C09",
-		Rules: []func(*core.Ctx){RRepConst, RRepCases, RRepID, RCommitPos, RCompact, RLoopMatch, rDirFoldOnly, RSlot, RCapsKey},
+		Rules: []func(*core.Ctx){RRepConst, RRepCases, RRepID, RFoldExit, RCommitPos, RCompact, RLoopMatch, rDirFoldOnly, RSlot, RCapsKey},
 		Explanation: "R-REPCONST (encoder and decoder of replacement rules are the same affine map over equal constants), R-REPCASES (every special token has an arm in both expansion functions; the right-to-left expansion collects pieces last-to-first), R-COMPACT (balancing compaction precedes every expansion of the reused match; count discipline of the replace loops), R-DIRFOLD (Split and the replace drivers are direction-aware), R-SLOT (group numbers reach slots through the maps, including inside Split). " +
 			"That the pieces are concatenated with the right text in between, $-grammar ambiguities and identity of $& are NOT decided.",
 	})
